@@ -630,6 +630,40 @@ def apply_proj(base, pj, idx=None):
     return s
 
 
+
+def place_matches(rx, o):
+    """A VariantIn literal names a place (the value whose variant is tested).  The regex must match the
+    tested value ITSELF: the expression starting at the match has to extend to the end of the origin
+    string (closing brackets of enclosing wrappers aside).  A match on a prefix of `X@Some.0.value` or
+    `X.field` names a different value (a projection of X) and does not count."""
+    for m in rx.finditer(o):
+        depth = 0
+        prev = ""
+        n = len(o)
+        # brackets opened inside the matched text (closers of brackets opened before the match are ignored)
+        for i in range(m.start(), m.end()):
+            ch = o[i]
+            if ch in "({[<":
+                depth += 1
+            elif ch in ")}]" or (ch == ">" and prev != "-"):
+                depth = max(0, depth - 1)
+            prev = ch
+        i = m.end()
+        while depth > 0 and i < n:
+            ch = o[i]
+            if ch in "({[<":
+                depth += 1
+            elif ch in ")}]" or (ch == ">" and prev != "-"):
+                depth -= 1
+            prev = ch
+            i += 1
+        p = i
+        rest = o[p:]
+        if re.fullmatch(r"[)\]}]*", rest):
+            return True
+    return False
+
+
 def _split_top(inner):
     """Split at top-level commas; (), {}, [] and the angle brackets of type paths nest
     (`->` of fn types is not a bracket)."""
@@ -1207,9 +1241,9 @@ class OnlyIf:
                     extra.add("Ok")
                 if "None" in lit.variants:
                     extra.add("Err")
-                if lit.place.search(inner) is not None and mapped <= (lit.variants | extra):
+                if place_matches(lit.place, inner) and mapped <= (lit.variants | extra):
                     return True
-            if lit.place.search(o) is not None and allowed <= lit.variants:
+            if place_matches(lit.place, o) and allowed <= lit.variants:
                 return True
         return False
 
@@ -1310,7 +1344,7 @@ class OnlyIf:
                 tbl = {"is_some": ({"Some"}, {"None"}), "is_none": ({"None"}, {"Some"}), "is_ok": ({"Ok"}, {"Err"}), "is_err": ({"Err"}, {"Ok"})}
                 if nm in tbl and name.startswith(("std::option::Option", "std::result::Result")):
                     vs = tbl[nm][0] if pb else tbl[nm][1]
-                    if lit.place.search(args[0]) and vs <= lit.variants:
+                    if place_matches(lit.place, args[0]) and vs <= lit.variants:
                         return True
         if pred[0] == "variants" and name == "std::ops::FromResidual::from_residual":
             st = f.get("self_ty", "")
